@@ -30,6 +30,21 @@ Oracle (weakest reading of the statement; the object is what a truthful full GET
       or of a rejected redirect target occurs in the raised exception (str/repr/args of the exception and of
       its displayed cause/context chain, notes, ``ClientResponseError.request_info``) or in any log record
       emitted on the ``vgi_rpc`` logger (message and extra fields).
+
+Finding keys: ``contacted-rejected-url:<request class>:<how>``, ``redirects-exceeded:<class>``, ``overread[-range|-total]:<class>``,
+``decode-overread:<codec>``, ``result-over-decoded-cap:<path>``, ``hang:<path>:<fault>``, ``wrong-bytes:<path>:<origin lie>``,
+``secret-leak:exception:<exception type>:<url part>:<site>`` (site = validator message style | transport exception passed
+through | external_fetch function that built the error), ``secret-leak:log:<url part>``.
+
+Reproduced on the pinned tree (each with a standalone reproducer against real aiohttp, see the agent report):
+  * ``secret-leak:exception:ConnectionTimeoutError:query:passthrough-request-timeout`` — aiohttp's connect-timeout text is
+    ``"Connection timeout to host <req.url>"`` (query string kept); ``_request_following_redirects`` re-raises TimeoutError as is.
+  * ``wrong-bytes:parallel:probe-length-short`` — probe (HEAD Content-Length / probe Content-Range total) smaller than the object:
+    the parallel path returns a prefix although every 206 carries ``Content-Range: .../<true total>``.
+  * ``wrong-bytes:parallel:range-shift`` — a 206 whose ``Content-Range`` names a different range of the same size is spliced in.
+  * ``secret-leak:exception:ValueError:fragment:validator-msg-fragment`` / ``...:query:validator-msg-query`` — ``_validate_url``
+    scrubs the whole URL, userinfo and *decoded* query values from validator messages, but not the fragment nor
+    percent-encoded query values (validators that interpolate URL components rather than the URL).
 """
 
 from __future__ import annotations
@@ -351,14 +366,19 @@ def oracle(ctx: Ctx, script: dict[str, Any], x: V.Exec) -> Any:
 
 def _leak_site(script: dict[str, Any], o: O.Origin, exc: BaseException) -> str:
     """Stable name of the input class of a leaking error: validator message style, the transport fault that was
-    passed through, or (for errors the fetcher built itself) the last response status."""
+    passed through, or (for errors the fetcher built itself) the external_fetch.py function that raised it."""
     if isinstance(exc, ValueError) and "URL rejected" in str(exc):
         return "validator-msg-" + script.get("vmsg", "full")
     for e, site in o.raised:
         if e is exc:
             return "passthrough-" + site
-    last = o.requests[-1] if o.requests else None
-    return "built-after-status-" + str(last.status if last else None)
+    fn = "?"
+    tb = exc.__traceback__
+    while tb is not None:  # innermost external_fetch.py frame = the call site that built the error
+        if tb.tb_frame.f_code.co_filename.endswith("external_fetch.py"):
+            fn = tb.tb_frame.f_code.co_name
+        tb = tb.tb_next
+    return "raised-in-" + fn
 
 
 def _part(kind: str) -> str:
@@ -636,10 +656,13 @@ def family_b(ctx: Ctx) -> Iterator[tuple[dict[str, Any], list[tuple[str, dict[st
                     if mult == 0.0 and hedges == 1:
                         continue
                     yield mk("honest", n, {}, None, "honest", mult=mult, hedges=hedges, par=par, hold=True), dvar
+    # four chunks: the smallest object on which two hedges can be in flight at once
+    yield mk("honest4", 14, {}, None, "honest4", mult=0.5, maxf=16, hold=False), dvar
     if not q:
         for kind in ("head", "presigned"):
             for mult in (2.0, 0.5):
-                yield mk("honest4", 14, {}, None, "honest4", kind=kind, mult=mult, maxf=16, hold=False), dvar
+                if (kind, mult) != ("head", 0.5):
+                    yield mk("honest4", 14, {}, None, "honest4", kind=kind, mult=mult, maxf=16, hold=False), dvar
         yield mk("honest", 10, {}, None, "honest", hash_="desc", mult=0.5), dvar
         yield mk("honest4", 14, {}, None, "honest4", mult=2.0, maxf=16, hold=True), dvar
         yield mk("honest4", 14, {}, None, "honest4", mult=2.0, maxf=16, hold=False, dts=(0, D, 4 * D)), dvar
@@ -648,8 +671,14 @@ def family_b(ctx: Ctx) -> Iterator[tuple[dict[str, Any], list[tuple[str, dict[st
         for fname, fault, lie in CHUNK_FAULTS:
             for scope in ("", "#0"):
                 retrying = fname in ("exc-reset", "exc-disc", "mid-reset")
-                yield mk(f"{fname}@4-7{scope}/4chunks", 14, {"4-7" + scope: fault}, lie, fname, mult=2.0, maxf=16, hold=False,
+                yield mk(f"{fname}@4-7{scope}/4chunks", 14, {"4-7" + scope: fault}, lie, fname, mult=2.0, maxf=16, hold=not retrying,
                          dts=(0,) if retrying else (0, D)), dvar
+                yield mk(f"{fname}@12-13{scope}/4chunks", 14, {"12-13" + scope: fault}, lie, fname, mult=0.5, maxf=16, hold=False,
+                         dts=(0,) if retrying or fname == "stall" else (0, D)), dvar
+                if not retrying:
+                    yield mk(f"{fname}@0-3{scope}/3dts", 10, {"0-3" + scope: fault}, lie, fname, mult=0.5, hold=False, dts=(0, D, 4 * D)), dvar
+                    yield mk(f"{fname}@4-7{scope}/h1", 10, {"4-7" + scope: fault}, lie, fname, mult=0.5, hedges=1), dvar
+                    yield mk(f"{fname}@4-7{scope}/p2", 10, {"4-7" + scope: fault}, lie, fname, mult=0.5, par=2), dvar
     # 2. one faulty range, on every attempt or on the first attempt only (so that a hedge or the retry succeeds)
     ranges10 = ("0-3", "4-7", "8-9")
     for fname, fault, lie in CHUNK_FAULTS:
@@ -684,7 +713,8 @@ def family_b(ctx: Ctx) -> Iterator[tuple[dict[str, Any], list[tuple[str, dict[st
     if not q:
         for f1, s1, l1 in CHUNK_FAULTS[:9]:
             for f2, s2, l2 in (CHUNK_FAULTS[0], CHUNK_FAULTS[3], CHUNK_FAULTS[10], CHUNK_FAULTS[16]):
-                yield mk(f"{f1}@0-3+{f2}@8-9", 10, {"0-3": s1, "8-9#0": s2}, l1 or l2, f1 + "+" + f2, mult=0.5, hold=False), dvar
+                yield mk(f"{f1}@0-3+{f2}@8-9", 10, {"0-3": s1, "8-9#0": s2}, l1 or l2, f1 + "+" + f2, mult=0.5,
+                         hold=f2 not in ("exc-reset",), dts=(0,) if f2 == "exc-reset" else (0, D)), dvar
 
 
 def scripts(ctx: Ctx) -> Iterator[tuple[dict[str, Any], list[tuple[str, dict[str, Any]]]]]:
